@@ -944,6 +944,7 @@ impl<'a> Run<'a> {
             GovernanceAction::new_no_confidence_action(&NoConfidenceAction::new())
         };
         let prop = VotingProposal::new(&action, &anchor, &ra, &bn(deposit));
+        let prop_bytes = prop.to_bytes();
         let ok;
         if with_policy {
             let (red, marker) = self.redeemer(&RedeemerTag::new_voting_proposal());
@@ -951,11 +952,16 @@ impl<'a> Run<'a> {
             let wit = PlutusWitness::new_with_ref_without_datum(&src, &red);
             ok = self.call("pb.add_with_plutus_witness", |s| s.pb.add_with_plutus_witness(&prop, &wit)).is_some();
             if ok {
+                // the proposal builder is a map keyed by the proposal: adding the same proposal again replaces its witness
+                self.items.retain(|it| !(it.purpose == Purpose::Propose && it.target == prop_bytes));
                 self.plutus_used = true;
                 self.items.push(ScriptItem { purpose: Purpose::Propose, target: prop.to_bytes(), plutus: true, script_index: pi, script_hash: self.w.plutus_hash(pi).to_bytes(), script_ref_input: refin, witness_datum: None, datum_ref_input: None, marker: Some(marker), signer_hint: hint });
             }
         } else {
             ok = self.call("pb.add", |s| s.pb.add(&prop)).is_some();
+            if ok {
+                self.items.retain(|it| !(it.purpose == Purpose::Propose && it.target == prop_bytes));
+            }
         }
         if ok {
             self.used.4 = true;
